@@ -33,6 +33,9 @@ type c15case struct {
 	BridgeLv int      `json:"bridge_level,omitempty"`
 	MsgQ     string   `json:"msg,omitempty"`
 	Debug    bool     `json:"debug_mode,omitempty"`
+	Reg      bool     `json:"customs_registered,omitempty"` // custom levels treated as Error/Warn/Info/Debug are registered first
+	Level2   int      `json:"level2,omitempty"`             // L4c: level of the logger at the time of the second derivation
+	Format2  string   `json:"format2,omitempty"`            // L4c: format of the logger at the time of the second derivation
 }
 
 type lvValuer struct{ v logslog.Value }
@@ -190,6 +193,11 @@ func c15new(cas c15case) *c15world {
 	caseSeq++
 	resetAlt(caseSeq)
 	setFlagsVia(slog.LstdFlags|slog.LnoInterrupt, caseSeq/2)
+	if cas.Reg {
+		for i, as := range []slog.Level{slog.ErrorLevel, slog.WarnLevel, slog.InfoLevel, slog.DebugLevel} {
+			_ = slog.RegisterLevel(slog.Level(50+i), fmt.Sprintf("C15AUDIT%d", i), slog.RegWithTreatedAsLevel(as))
+		}
+	}
 	w := &c15world{rec: &recorder{}}
 	wr := &plainW{"under", w.rec}
 	w.l = slog.New("under").SetWriter(wr).SetErrorWriter(wr)
@@ -292,7 +300,7 @@ func c15levelMatches(format string, got string, want slog.Level) bool {
 
 func c15eval(cas c15case) *Violation {
 	mk := func(clause, detail string) *Violation {
-		sig := fmt.Sprintf("C15|%s|%s|via=%s|format=%s|slog_level=%d|logger_level=%s|attr=%s|chain=%v|opt_level=%d|bridge=%d|msg=%s", clause, cas.Layer, cas.Via, cas.Format, cas.SlogLvl, levelName(slog.Level(cas.LogLevel)), cas.Attr, cas.Chain, cas.OptLevel, cas.BridgeLv, cas.MsgQ)
+		sig := fmt.Sprintf("C15|%s|%s|via=%s|format=%s|slog_level=%d|logger_level=%s|attr=%s|chain=%v|opt_level=%d|bridge=%d|msg=%s|reg=%v|format2=%s|level2=%d", clause, cas.Layer, cas.Via, cas.Format, cas.SlogLvl, levelName(slog.Level(cas.LogLevel)), cas.Attr, cas.Chain, cas.OptLevel, cas.BridgeLv, cas.MsgQ, cas.Reg, cas.Format2, cas.Level2)
 		return mkViolation(sig, clause, detail, cas)
 	}
 	w := c15new(cas)
@@ -427,7 +435,11 @@ func c15eval(cas c15case) *Violation {
 	// ---- Logger / Handle through the adapter
 	h := w.h
 	var wantAttrs []string // keys that must be present
-	for _, c := range cas.Chain {
+	chain := cas.Chain
+	if cas.Layer == "L4c-rederive" && len(chain) > 0 {
+		chain = chain[:len(chain)-1] // the last derivation is the one that is repeated
+	}
+	for _, c := range chain {
 		switch c {
 		case "WithAttrs(a)":
 			h = h.WithAttrs([]logslog.Attr{logslog.Int("wa", 11)})
@@ -438,6 +450,63 @@ func c15eval(cas c15case) *Violation {
 		case "WithGroup(g)":
 			h = h.WithGroup("g")
 		}
+	}
+	if cas.Layer == "L4c-rederive" {
+		// derive; reconfigure the logger behind the handler; derive again with the SAME arguments from the
+		// SAME parent: the second handler keeps the level, format and destination its parent has at that time
+		last := "WithGroup(g)"
+		if len(cas.Chain) > 0 {
+			last = cas.Chain[len(cas.Chain)-1]
+		}
+		derive := func() logslog.Handler {
+			if last == "WithGroup(g)" {
+				return h.WithGroup("g")
+			}
+			return h.WithAttrs([]logslog.Attr{logslog.Int("wa", 11)})
+		}
+		first := derive()
+		_ = first
+		// the logger behind the parent handler (the handler type embeds it)
+		under, ok := h.(interface {
+			SetLevel(slog.Level) *slog.Entry
+			SetJSONMode(...bool) *slog.Entry
+			SetColorMode(...bool) *slog.Entry
+		})
+		if !ok {
+			c15unreachable++ // reported in the evidence; not a violation
+			return nil
+		}
+		under.SetLevel(slog.Level(cas.Level2))
+		slog.VerifRestoreModes(cas.Debug, false)
+		switch cas.Format2 {
+		case "json":
+			under.SetJSONMode(true)
+		case "logfmt":
+			under.SetJSONMode(false)
+			under.SetColorMode(false)
+		case "color":
+			under.SetJSONMode(false)
+			under.SetColorMode(true)
+		}
+		second := derive()
+		ns, std := c15standard[cas.SlogLvl]
+		if !std {
+			return nil
+		}
+		if pan := catch(func() { logslog.New(second).LogAttrs(ctx, logslog.Level(cas.SlogLvl), msg, logslog.Int("own", 5)) }); pan != "" {
+			return mk("call-returns", firstLine(pan))
+		}
+		adm, fixed := refAdmit(slog.Level(cas.Level2), ns, cas.Debug, nil)
+		if fixed && adm != (len(w.rec.events) == 1) {
+			return mk("rederived-keeps-level", fmt.Sprintf("handler derived after the logger was set to %s: log/slog level %d, reference admits=%v, records written=%d", levelName(slog.Level(cas.Level2)), cas.SlogLvl, adm, len(w.rec.events)))
+		}
+		if len(w.rec.events) == 1 {
+			if got := classifyRecord(w.rec.events[0].Payload); got != cas.Format2 {
+				return mk("rederived-keeps-format", fmt.Sprintf("handler derived after the logger was switched to %s writes %s records: %.150q", cas.Format2, got, w.rec.events[0].Payload))
+			}
+			c15last = w.rec.events[0].Payload
+		}
+		return nil
 	}
 	if cas.Layer == "L4b-siblings" {
 		// two handlers derived from the SAME parent (which itself is the third link of a chain): neither may disturb the other
@@ -575,6 +644,7 @@ func c15eval(cas c15case) *Violation {
 }
 
 var c15last string
+var c15unreachable int64
 
 func c15cases(thorough bool, emit func(c15case)) {
 	formats := []string{"json", "logfmt", "color"}
@@ -640,6 +710,33 @@ func c15cases(thorough bool, emit func(c15case)) {
 			}
 		}
 	}
+	// L4c: the same derivation repeated after the logger behind the handler was reconfigured
+	for _, ch := range [][]string{{"WithGroup(g)"}, {"WithAttrs(a)"}, {"WithAttrs(b)", "WithGroup(g)"}} {
+		for _, f := range formats {
+			for _, f2 := range formats {
+				for _, L := range []slog.Level{slog.ErrorLevel, slog.InfoLevel} {
+					for _, L2 := range []slog.Level{slog.ErrorLevel, slog.WarnLevel, slog.DebugLevel} {
+						for _, lv := range []int{-4, 0, 4, 8} {
+							emit(c15case{Layer: "L4c-rederive", Format: f, Format2: f2, LogLevel: int(L), Level2: int(L2), SlogLvl: lv, Chain: ch, Via: "Logger"})
+						}
+					}
+				}
+			}
+		}
+	}
+	// L1r: the level tables after custom levels treated as the four standard ones were registered
+	for lv := -20; lv <= 20; lv++ {
+		if !thorough && lv%4 != 0 {
+			continue
+		}
+		for _, f := range formats {
+			for _, L := range []slog.Level{slog.ErrorLevel, slog.TraceLevel} {
+				for _, via := range []string{"Logger", "EntryLog", "Enabled", "Handle"} {
+					emit(c15case{Layer: "L1r-levels-after-registrations", Format: f, LogLevel: int(L), SlogLvl: lv, Via: via, Reg: true})
+				}
+			}
+		}
+	}
 	// L4b: sibling handlers derived from one parent
 	for _, ch := range chains {
 		for _, f := range formats {
@@ -698,6 +795,7 @@ func init() {
 		for k, v := range layers {
 			c.Count("layer_"+k, v)
 		}
+		c.Count("L4c_cases_skipped_logger_behind_handler_unreachable", c15unreachable)
 		c.Assume("non-standard log/slog levels: only 'at most one record' and 'never a terminating severity' are checked")
 		c.Assume("WithGroup: destination, format, level and presence of the attributes are checked, not the nesting of later attributes under the group")
 	}, Replay: func(raw json.RawMessage) *Violation {
